@@ -1,7 +1,7 @@
 //verif:pkg .
 //verif:use fakes_client
 //verif:use fakes_mcp
-//verif:bound one adversarial frame (an arbitrary JSON document of depth <= 2 that is not the pending call's own answer, truncated JSON, a line of 3 printable ASCII bytes starting with an upper-case letter, comments and blank lines, an event without data, empty data, an unexpected endpoint event, id/retry fields only; on the GET stream also a 70000-byte frame) placed before, inside or after the valid answer of call 1, followed by a well-formed call 2 and Close; plus the call's own id with an arbitrary result document (depth <= 3); Streamable client with JSON answers, with SSE answers (with and without a registered notification handler) and on its GET stream, legacy SSE client, stdio client transport
+//verif:bound one adversarial frame (an arbitrary JSON document of depth <= 2 that is not the pending call's own answer, truncated JSON, a line of 3 printable ASCII bytes starting with an upper-case letter, comments and blank lines, an event without data, empty data, an unexpected endpoint event, id/retry fields only; on the GET stream also a 70000-byte frame) placed before, inside or after the valid answer of call 1, followed by a well-formed call 2 and Close; plus the call's own id with an arbitrary result document (depth <= 3) for each of tools/call, tools/list, prompts/list, prompts/get, resources/list, resources/read; Streamable client with JSON answers, with SSE answers (with and without a registered notification handler) and on its GET stream, legacy SSE client, stdio client transport
 //verif:assume several adversarial frames in one exchange, frames split across reads at arbitrary byte offsets and CPU-time measurement are outside the bound; a goroutine that re-reads a sticky decoder error three times is taken to spin forever
 package mcp
 
@@ -145,10 +145,41 @@ func H_C07_streamable_sse_answer() {
 	vReach("end")
 }
 
-// H_C07_streamable_own_id_any_result: the answer carries the call's id and an arbitrary result document.
+// c07Op runs one of the six result-bearing operations; ok = it returned a value without error.
+func c07Op(c *Client, ctx context.Context, op int) (bool, error) {
+	switch op {
+	case 0:
+		r, err := c.CallTool(ctx, &CallToolRequest{Params: CallToolParams{Name: "t"}})
+		return r != nil, err
+	case 1:
+		r, err := c.ListTools(ctx, &ListToolsRequest{})
+		return r != nil, err
+	case 2:
+		r, err := c.ListPrompts(ctx, &ListPromptsRequest{})
+		return r != nil, err
+	case 3:
+		r, err := c.GetPrompt(ctx, &GetPromptRequest{})
+		return r != nil, err
+	case 4:
+		r, err := c.ListResources(ctx, &ListResourcesRequest{})
+		return r != nil, err
+	}
+	r, err := c.ReadResource(ctx, &ReadResourceRequest{})
+	return r != nil, err
+}
+
+// H_C07_streamable_own_id_any_result: the answer carries the call's id and an arbitrary result document,
+// for each of the six operations that decode a result.
 func H_C07_streamable_own_id_any_result() {
 	sse := vChoice("sse", 2) == 1
-	result := vJSON("result", 3)
+	op := vChoice("op", 6)
+	// depth 3 reaches the content items of a tool result and the messages of a prompt; the list results
+	// and resource contents are explored to depth 2 (thorough: 3)
+	depth := 2
+	if op == 0 || op == 3 || vTier() == 1 {
+		depth = 3
+	}
+	result := vJSON("result", depth)
 	net := &verifNet{}
 	calls := 0
 	net.respond = func(s *verifSent) (*http.Response, error) {
@@ -167,11 +198,11 @@ func H_C07_streamable_own_id_any_result() {
 	}
 	c := c07StreamableClient(net)
 	ctx, cancel := context.WithTimeout(context.Background(), 400*time.Millisecond)
-	res, err := c.CallTool(ctx, &CallToolRequest{Params: CallToolParams{Name: "t"}})
+	got, err := c07Op(c, ctx, op)
 	cancel()
-	vAssert("error-or-a-result", vOr(err != nil, res != nil))
+	vAssert("error-or-a-result", vOr(err != nil, got))
 	rv, _ := verifParse(result)
-	if _, isObj := verifObj(rv); !isObj {
+	if _, isObj := verifObj(rv); !isObj && op == 0 {
 		vAssert("non-object-result-is-an-error", err != nil)
 	}
 	ctx2, cancel2 := context.WithTimeout(context.Background(), 400*time.Millisecond)
